@@ -179,6 +179,8 @@ class Profile:
         self.a, self.g = a, g
 
     def __call__(self, x, y, z):
+        if len(self.g) > 3 and self.g[3] == 'hole' and x > 0.15:
+            return 0.0                       # compact support: the species is absent (exactly 0) for x > 0.15
         return self.a * max(0.05, 1.0 + self.g[0] * x + self.g[1] * y + self.g[2] * z)
 
 
@@ -312,16 +314,21 @@ SIGHTS = [((-3.0, 0.02, 0.11), (1.0, 0.0, 0.0)), ((0.13, -3.0, 0.3), (0.0, 1.0, 
 DENS_PTS = [(0.0, 0.0, 0.3), (0.02, -0.01, 0.9), (0.05, 0.04, 1.7), (0.0, 0.0, 2.6), (-0.03, 0.02, 3.4), (0.3, 0.0, 1.0)]
 
 
-def observe(L, wl=(480.0, 560.0, 16)):
-    """('ok', [floats]) or (exception kind, message) -- everything the property calls observable"""
+def observe(L, wl=(480.0, 560.0, 16), order=None):
+    """('ok', [floats]) or (exception kind, message) -- everything the property calls observable.
+    `order` permutes the order in which the sight lines are traced (the result is reported in canonical order):
+    per-sight-line spectra must not depend on what was evaluated before."""
     from harness.vlib.util import exc_kind
     out = []
     try:
-        for o, d in SIGHTS:
+        spectra = {}
+        for i in (order or range(len(SIGHTS))):
+            o, d = SIGHTS[i]
             ray = Ray(origin=Point3D(*o), direction=Vector3D(*d).normalise(), min_wavelength=wl[0], max_wavelength=wl[1],
                       bins=wl[2])
-            s = ray.trace(L.world)
-            out.extend(float(v) for v in s.samples)
+            spectra[i] = [float(v) for v in ray.trace(L.world).samples]
+        for i in range(len(SIGHTS)):
+            out.extend(spectra[i])
         if L.beam is not None:
             for pt in DENS_PTS:
                 out.append(float(L.beam.density(*pt)))
